@@ -369,12 +369,25 @@ struct any_op final : rcv_iface {
 };
 
 // a node built from a factory that creates the (typed) library expression afresh on every connect
+// Depth of library connect() calls on this thread that are declared noexcept although they connect a
+// child inside (an exception from that child cannot propagate: std::terminate). While > 0 the harness
+// injects nothing that throws; a plan-level throw there is reported instead (workload's business).
+inline thread_local int tl_noexcept_connect_depth = 0;
+void noexcept_connect_enter();  // workload hooks (close / restore fault windows)
+void noexcept_connect_leave();
+
 template <class Factory>
 struct expr_node final : node_base {
   Factory f;
-  explicit expr_node(Factory ff) : f(std::move(ff)) {}
+  bool noexcept_connect;
+  explicit expr_node(Factory ff, bool nc = false) : f(std::move(ff)), noexcept_connect(nc) {}
   op_base* connect_node(bridge b) override {
     using S = decltype(f());
+    if (!noexcept_connect) return new typed_op<S>(f(), std::move(b));
+    struct Scope {
+      Scope() { ++tl_noexcept_connect_depth; noexcept_connect_enter(); }
+      ~Scope() { --tl_noexcept_connect_depth; noexcept_connect_leave(); }
+    } scope;
     return new typed_op<S>(f(), std::move(b));
   }
 };
